@@ -145,7 +145,7 @@ def _check_transient_one(case, r: R):
         err = np.abs(y - want).max()
         # the model matrices come out of two inversions of the nodal matrix: their entries carry a relative error of
         # about eps*cond, which for stiff circuits (cond(A) up to 1e8) limits the response accuracy - not a defect
-        if not (err <= 1e-6 * max(1.0, condA / 1e5) * sc):
+        if not (err <= 1e-6 * max(1.0, condA / 1e4) * sc):
             k = int(np.nanargmax(np.abs(y - want))) if np.isfinite(y).all() else 0
             kind = kind_of.get(key[1], 'node')
             r.fail(f'response-{key[0]}[{kind}]', f'{key[1]!r}: sample {k}: lib {y[k]} exact {want[k]} (scale {sc:.3g})')
@@ -181,7 +181,7 @@ def _check_transient_one(case, r: R):
         else:
             lhs, sc = got[('V', s)] / c['args']['L'], vmax / c['args']['L']
         sc = max(sc, np.abs(dx[:, j]).max())
-        if np.abs(lhs - dx[:, j]).max() > 1e-5 * max(1.0, condA / 1e5) * sc:
+        if np.abs(lhs - dx[:, j]).max() > 1e-5 * max(1.0, condA / 1e4) * sc:
             r.fail(f'derivative-relation[{c["kind"]}]', f'{s!r}: max residual {np.abs(lhs - dx[:, j]).max()} (scale {sc:.3g})')
 
 
